@@ -390,8 +390,13 @@ def stmt_end(m, i, hi):
             k += 1
         return hi
     seen_arrow = False
+    # a field initialiser of a struct literal / a field declaration (`name: expr,` - what a `#[cfg(..)]` attribute in
+    # front of a field governs) ends at the first top-level comma, not at the closing brace of the literal
+    field = re.match(r'(pub(\([^)]*\))?\s+)?\w+\s*:(?!:)', m[i:i + 80]) is not None
     while k < hi:
         c = m[k]
+        if c == ',' and field and not seen_arrow:
+            return k + 1
         if c in OPEN:
             k = match_close(m, k) + 1
             if seen_arrow:
